@@ -159,7 +159,8 @@ func process(in io.Reader, out io.Writer, p *Palette, s stack.Similarity, pf pat
 		c, suffix, err := stack.ScanSnapshot(in, out, opts)
 		if c != nil {
 			// Process it even if an error occurred.
-			if err1 := processInner(out, p, s, pf, html, filter, match, c, first); err == nil {
+			if err1 := processInner(out, p, s, pf, html, filter, match, c, first); err1 != nil && (err == nil || err == io.EOF) {
+				// Failing to render is an error even when the dump ends the input.
 				err = err1
 			}
 		}
